@@ -344,6 +344,30 @@ def rpUnlock (s : State) (j amt : Nat) : R :=
     | .error e => .error e
     | .ok s1 => .ok { s1 with rps := s1.rps.set j (some 0) }
 
+/-- `commit_blobber_read` (`read_redeem`): client `j`'s read marker for blobber `i` of allocation `k` is redeemed;
+`price` = `Coin(float64(Terms.ReadPrice) * sizeInGB(reads * CHUNK_SIZE))` is the observed cost of the marker. Checks in
+the order of the code: the allocation exists; the marker (stamped `now`) is not later than the expiration; the blobber
+serves the allocation; `readPool.moveToBlobber` rejects a marker that costs more than the pool holds (a client without
+a read pool gets an empty one first, so only a free marker passes). Then the pool is debited by `price` and
+`sp.DistributeRewards(price, …)` credits the blobber's stake pool (nothing if it is killed or staked below the
+minimum: the tokens then stay in the wallet, owed to nobody). -/
+def readRedeem (s : State) (k i j price : Nat) : R :=
+  match s.allocs k with
+  | none => .error (.fail "absent")
+  | some a =>
+    if a.exp < s.now then .error (.fail "expired") else
+    match findBA a.bas i with
+    | none => .error (.fail "not-blobber")
+    | some _ =>
+      match s.sps i with
+      | none => .error (.inadm "no-stake-pool")
+      | some sp =>
+        let bal := (s.rps j).getD 0
+        if bal < price then .error (.fail "read-pool") else
+        .ok { s with
+          rps := s.rps.set j (some (bal - price)),
+          sps := s.sps.set i (some { sp with rewards := sp.rewards + credit sp price }) }
+
 /-- `commitBlobberConnection` + `commitMoveTokens`: `move` is the observed amount.
 upload: `move ≤ WritePool` (`upload` caps it), `cv += move`, `cp += move`, `wp -= move`, `MovedToChallenge += move`;
 delete: `move ≤ cv` (`delete` caps it), `cp ≥ move` (`moveFromChallengePool`), `cv -= move`, `cp -= move`, `wp += move`,
@@ -698,6 +722,7 @@ inductive Op where
   | wpLock (k j value : Nat)
   | rpLock (j value : Nat)
   | rpUnlock (j amt : Nat)
+  | readRedeem (k i j price : Nat)
   | tick (dt : Nat)
   | noop
 deriving Repr
@@ -720,6 +745,7 @@ def step (s : State) : Op → R
   | .wpLock k j value => wpLock s k j value
   | .rpLock j value => rpLock s j value
   | .rpUnlock j amt => rpUnlock s j amt
+  | .readRedeem k i j price => readRedeem s k i j price
   | .tick dt => .ok { s with now := s.now + dt }
   | .noop => .ok s
 
